@@ -6,6 +6,7 @@ import FractopoModel.Spec.Validators
 import FractopoModel.Lemmas.NodeJunctions
 import FractopoModel.Lemmas.IntersectionFilter
 import FractopoModel.Generated.GeneralNodes
+import FractopoModel.Generated.ValidationCaches
 /-!
 # C02 — validation verdicts on crisp configurations
 
@@ -190,5 +191,71 @@ theorem C02_generated_crosscut {L : Type} (meets : L → L → Bool) (ip : L →
     · simp only [Bool.not_true, Bool.false_eq_true, if_false, Bool.false_or]
       congr 2
   · rfl
+
+/-! ### the per-object node caches (regenerated from their checked shape) -/
+
+section Caches
+open Gen
+variable {T GN NS : Type}
+
+/-- `k` consecutive `_validate` calls of one pass -/
+def accesses (gen : T → GN) (vn fj : GN → NS) (flag : Bool) (traces : T) : Nat → ValCaches GN NS → List (Option NS × Option NS) × ValCaches GN NS
+  | 0, c => ([], c)
+  | k + 1, c => let (r, c) := val_access gen vn fj flag traces c; let (rs, c) := accesses gen vn fj flag traces k c; (r :: rs, c)
+
+theorem cache_flags : val_flag requires_nodes (major_validators.map (·.1)) = false ∧ val_flag requires_nodes (all_validators.map (·.1)) = true := by decide
+
+theorem access_off (gen : T → GN) (vn fj : GN → NS) (traces : T) (c : ValCaches GN NS) (hv : c.vnodes = none) (hj : c.junctions = none) :
+    val_access gen vn fj false traces c = ((none, none), c) := by
+  unfold val_access val_vnodes val_junctions
+  simp [hv, hj]
+
+theorem accesses_off (gen : T → GN) (vn fj : GN → NS) (traces : T) (k : Nat) (c : ValCaches GN NS) (hv : c.vnodes = none) (hj : c.junctions = none) :
+    accesses gen vn fj false traces k c = (List.replicate k (none, none), c) := by
+  induction k with
+  | zero => rfl
+  | succ k ih => simp [accesses, access_off gen vn fj traces c hv hj, ih, List.replicate_succ]
+
+theorem access_on_fresh (gen : T → GN) (vn fj : GN → NS) (traces : T) :
+    val_access gen vn fj true traces ({} : ValCaches GN NS) =
+      ((some (vn (gen traces)), some (fj (gen traces))), { general := some (gen traces), vnodes := some (vn (gen traces)), junctions := some (fj (gen traces)) }) := by
+  unfold val_access val_vnodes val_junctions val_general
+  simp
+
+theorem access_filled (gen : T → GN) (vn fj : GN → NS) (flag : Bool) (traces : T) (c : ValCaches GN NS) (v j : NS) (hv : c.vnodes = some v) (hj : c.junctions = some j) :
+    val_access gen vn fj flag traces c = ((some v, some j), c) := by
+  unfold val_access val_vnodes val_junctions
+  simp [hv, hj]
+
+theorem accesses_filled (gen : T → GN) (vn fj : GN → NS) (flag : Bool) (traces : T) (k : Nat) (c : ValCaches GN NS) (v j : NS) (hv : c.vnodes = some v) (hj : c.junctions = some j) :
+    accesses gen vn fj flag traces k c = (List.replicate k (some v, some j), c) := by
+  induction k with
+  | zero => rfl
+  | succ k ih => simp [accesses, access_filled gen vn fj flag traces c v j hv hj, ih, List.replicate_succ]
+
+/-- **V NODE and MULTI JUNCTION are judged on the fixed traces.** The sets `vnodes` / `faulty_junctions` that `_validate` hands to the two node validators are, in every call
+of the second pass, those computed from the frame AFTER the first pass fixed what it could (merged multi-part lines included); the first pass computes none.
+The two passes of `run_validation` with the default validators: `k1` calls on the unfixed frame with the flag of the MAJOR validators, then `k2` calls on the
+fixed frame with the flag of ALL validators, starting from the empty caches of a new object -/
+theorem C02_node_sets_from_fixed_traces (gen : T → GN) (vn fj : GN → NS) (unfixed fixed : T) (k1 k2 : Nat) :
+    let f1 := val_flag requires_nodes (major_validators.map (·.1))
+    let f2 := val_flag requires_nodes (all_validators.map (·.1))
+    let p1 := accesses gen vn fj f1 unfixed k1 ({} : ValCaches GN NS)
+    let p2 := accesses gen vn fj f2 fixed k2 p1.2
+    p1.1 = List.replicate k1 (none, none) ∧ p2.1 = List.replicate k2 (some (vn (gen fixed)), some (fj (gen fixed))) := by
+  simp only [cache_flags.1, cache_flags.2]
+  rw [accesses_off gen vn fj unfixed k1 {} rfl rfl]
+  refine ⟨rfl, ?_⟩
+  cases k2 with
+  | zero => rfl
+  | succ k =>
+    simp only [accesses, access_on_fresh]
+    rw [accesses_filled gen vn fj true fixed k _ _ _ rfl rfl]
+    simp [List.replicate_succ]
+
+/-- non-vacuity: the sets the second pass sees are those of the FIXED frame (frames are numbers, "nodes" their double, the sets ± 1) -/
+example : (accesses (fun t : Nat => 2 * t) (· + 1) (· - 1) true 7 2 (accesses (fun t : Nat => 2 * t) (· + 1) (· - 1) false 5 3 {}).2).1 = [(some 15, some 13), (some 15, some 13)] := by decide
+
+end Caches
 
 end C02
